@@ -30,8 +30,8 @@ def rk4_a43 : K := ratK (1) 1
 def rk4_c4 : K := ratK (1) 1
 def rk4_w1 : K := ratK (1) 6
 def rk4_w2 : K := ratK (1) 3
-def rk4_w3 : K := ratK (1) 6
-def rk4_w4 : K := ratK (1) 3
+def rk4_w3 : K := ratK (1) 3
+def rk4_w4 : K := ratK (1) 6
 
 /-! Runge-Kutta-Fehlberg 4(5) (RungeKuttaSolver._make_single_step_error_estimate): stage times
 a_i, stage matrix b_ij, weights c_i of the returned (4th order) state, weights r_i of the
@@ -112,8 +112,8 @@ def table : List (String × Int × Nat) := [
   ("rk4_c4", 1, 1),
   ("rk4_w1", 1, 6),
   ("rk4_w2", 1, 3),
-  ("rk4_w3", 1, 6),
-  ("rk4_w4", 1, 3),
+  ("rk4_w3", 1, 3),
+  ("rk4_w4", 1, 6),
   ("rkf_a1", 0, 1),
   ("rkf_a2", 1, 4),
   ("rkf_b21", 1, 4),
